@@ -9,6 +9,9 @@ import Mathlib.Algebra.Field.Basic
 import Mathlib.Algebra.Order.Field.Basic
 import ChemModel.Model.Units
 
+set_option linter.unusedSectionVars false
+set_option linter.unusedSimpArgs false
+
 namespace ChemModel.Units
 open ChemModel
 
@@ -150,5 +153,377 @@ theorem toUnitlessScalar_eq (v nu : PyVal α) (hv : v.WF) (hn : nu.WF) :
       · have h1 : ¬ p.unit.dims.sub q.unit.dims = Dims.zero := fun h => hpq (h0.mp h)
         simp [toUnitlessScalar, PyVal.isQty, unitOfScalar, PyVal.div, rescale, quantitiesRescale, Quantity.units,
           Quantity.dimensionless, PyVal.magnitude, Unit.one, Quantity.div, Unit.div, h1, hpq, Except.map]
+
+theorem toUnitlessScalar_ok_iff {v nu : PyVal α} (hv : v.WF) (hn : nu.WF) (x : α) :
+    toUnitlessScalar v nu = .ok x ↔ v.dims = nu.dims ∧ x = v.si / nu.si := by
+  rw [toUnitlessScalar_eq v nu hv hn]
+  by_cases h : v.dims = nu.dims <;> simp [h, eq_comm]
+
+theorem toUnitlessScalar_error_iff {v nu : PyVal α} (hv : v.WF) (hn : nu.WF) (e : Err) :
+    toUnitlessScalar v nu = .error e ↔ v.dims ≠ nu.dims ∧ e = .valueError := by
+  rw [toUnitlessScalar_eq v nu hv hn]
+  by_cases h : v.dims = nu.dims <;> simp [h, eq_comm]
+
+/-! ### multiplying back, scaling, adding -/
+
+theorem timesUnit_si (x : α) (u : PyVal α) : (timesUnit x u).si = x * u.si := by
+  cases u <;> simp [timesUnit, PyVal.mul, PyVal.si, PyVal.asQuantity, Quantity.si, Unit.one, mul_assoc]
+
+theorem timesUnit_dims (x : α) (u : PyVal α) : (timesUnit x u).dims = u.dims := by
+  cases u <;> simp [timesUnit, PyVal.mul, PyVal.dims, PyVal.asQuantity, Unit.one]
+
+theorem timesUnit_wf (x : α) {u : PyVal α} (hu : u.WF) : (timesUnit x u).WF := by
+  cases u <;> simp_all [timesUnit, PyVal.mul, PyVal.WF]
+
+theorem scale_si (c : α) (v : PyVal α) : ((PyVal.num c).mul v).si = c * v.si := timesUnit_si c v
+theorem scale_dims (c : α) (v : PyVal α) : ((PyVal.num c).mul v).dims = v.dims := timesUnit_dims c v
+theorem scale_wf (c : α) {v : PyVal α} (hv : v.WF) : ((PyVal.num c).mul v).WF := timesUnit_wf c hv
+
+theorem PyVal.asQuantity_factor_ne {v : PyVal α} (hv : v.WF) : v.asQuantity.unit.factor ≠ 0 := by
+  cases v with
+  | num x => simp [PyVal.asQuantity, Unit.one]
+  | qty q => exact hv.factor_ne
+
+/-- `a + b` / `a - b` of quantities: the physical values are added / subtracted, in the unit of the left operand -/
+theorem addLike_ok {op : α → α → α} {a b s : PyVal α} (ha : a.WF) (hb : b.WF) (h : addLike op a b = .ok s)
+    (hop : ∀ x y c : α, op x y * c = op (x * c) (y * c)) :
+    a.dims = b.dims ∧ s.dims = a.dims ∧ s.si = op a.si b.si ∧ s.WF := by
+  have hfa := PyVal.asQuantity_factor_ne ha
+  cases a with
+  | num x =>
+    cases b with
+    | num y =>
+      simp [addLike] at h; subst h
+      simp [PyVal.WF]
+    | qty q =>
+      simp only [addLike] at h
+      split at h
+      · rename_i hd
+        simp at h; subst h
+        refine ⟨hd, rfl, ?_, ?_⟩
+        · simp [PyVal.si, PyVal.asQuantity, Quantity.si, Unit.one, hop]
+        · simp [PyVal.WF, PyVal.asQuantity]; exact ⟨by simp [Unit.one], Dims.zero_wf⟩
+      · simp at h
+  | qty p =>
+    simp only [addLike] at h
+    split at h
+    · rename_i hd
+      simp at h; subst h
+      refine ⟨hd, rfl, ?_, ha⟩
+      simp only [PyVal.si, PyVal.asQuantity, Quantity.si, hop]
+      congr 1
+      have : p.unit.factor ≠ 0 := hfa
+      field_simp
+    · simp at h
+
+theorem addLike_error {op : α → α → α} {a b : PyVal α} {e : Err} (h : addLike op a b = .error e) :
+    a.dims ≠ b.dims ∧ e = .valueError := by
+  cases a <;> cases b <;> simp only [addLike] at h <;> (try split at h) <;> simp_all [PyVal.dims, eq_comm]
+
+/-! ### containers: element-wise -/
+
+theorem toUnitlessFlat_ok_iff (l : List (PyVal α)) (u : PyVal α) (xs : List α) :
+    toUnitlessFlat l u = .ok xs ↔ List.Forall₂ (fun v x => toUnitlessScalar v u = .ok x) l xs := by
+  induction l generalizing xs with
+  | nil => cases xs <;> simp [toUnitlessFlat]
+  | cons v r ih =>
+    simp only [toUnitlessFlat]
+    split
+    · rename_i e he; simp [he]
+      intro h; cases h with | cons h1 _ => simp [he] at h1
+    · rename_i x hx
+      split
+      · rename_i e he
+        simp only [reduceCtorEq, false_iff]
+        intro h; cases h with
+        | cons h1 h2 => rw [← ih] at h2; simp [he] at h2
+      · rename_i ys hys
+        constructor
+        · intro h; simp at h; subst h
+          exact List.Forall₂.cons hx ((ih ys).mp hys)
+        · intro h; cases h with
+          | cons h1 h2 =>
+            rw [hx] at h1; simp at h1; subst h1
+            rw [← ih, hys] at h2; simp at h2; subst h2; rfl
+
+theorem toUnitlessFlat_error {l : List (PyVal α)} {u : PyVal α} {e : Err} (h : toUnitlessFlat l u = .error e) :
+    ∃ v ∈ l, toUnitlessScalar v u = .error e := by
+  induction l with
+  | nil => simp [toUnitlessFlat] at h
+  | cons v r ih =>
+    simp only [toUnitlessFlat] at h
+    split at h
+    · rename_i e' he; simp at h; subst h; exact ⟨v, by simp, he⟩
+    · split at h
+      · rename_i e' he; simp at h; subst h
+        obtain ⟨w, hw, hw'⟩ := ih he
+        exact ⟨w, by simp [hw], hw'⟩
+      · simp at h
+
+theorem toUnitlessFlat_length {l : List (PyVal α)} {u : PyVal α} {xs : List α} (h : toUnitlessFlat l u = .ok xs) :
+    xs.length = l.length := ((toUnitlessFlat_ok_iff l u xs).mp h).length_eq.symm
+
+/-! ### the unit algebra is a homomorphism onto (SI value, exponent vector) -/
+
+theorem Dims.getD_add {a b : Dims} (h : a.length = b.length) (j : ℕ) :
+    (a.add b).getD j 0 = a.getD j 0 + b.getD j 0 := by
+  simp only [Dims.add, List.getD_eq_getElem?_getD, List.getElem?_zipWith]
+  by_cases hj : j < a.length
+  · have hj' : j < b.length := by omega
+    simp [List.getElem?_eq_getElem hj, List.getElem?_eq_getElem hj']
+  · have hj' : ¬ j < b.length := by omega
+    simp [List.getElem?_eq_none (Nat.le_of_not_lt hj), List.getElem?_eq_none (Nat.le_of_not_lt hj')]
+
+theorem Dims.getD_smul (n : ℤ) (a : Dims) (j : ℕ) : (Dims.smul n a).getD j 0 = n * a.getD j 0 := by
+  simp only [Dims.smul, List.getD_eq_getElem?_getD, List.getElem?_map]
+  cases a[j]? <;> simp
+
+theorem Dims.getD_zero (j : ℕ) : Dims.zero.getD j 0 = 0 := by
+  simp only [Dims.zero, List.getD_eq_getElem?_getD, List.getElem?_replicate]
+  split <;> simp
+
+theorem Dims.getD_basis (i j : ℕ) : (Dims.basis i).getD j 0 = if j = i ∧ j < nDims then 1 else 0 := by
+  simp only [Dims.basis, List.getD_eq_getElem?_getD, List.getElem?_map, List.getElem?_range]
+  by_cases hj : j < nDims
+  · by_cases hji : j = i
+    · subst hji; simp [List.getElem?_range, hj]
+    · simp [List.getElem?_range, hj, hji]
+  · simp [List.getElem?_range, hj]
+
+theorem Dims.ext_getD {a b : Dims} (ha : Dims.WF a) (hb : Dims.WF b) (h : ∀ j, j < nDims → a.getD j 0 = b.getD j 0) :
+    a = b := by
+  unfold Dims.WF at ha hb
+  apply List.ext_getElem (by omega)
+  intro j h1 h2
+  have := h j (by omega)
+  simpa [List.getD_eq_getElem?_getD, List.getElem?_eq_getElem h1, List.getElem?_eq_getElem h2] using this
+
+theorem Dims.zero_add {d : Dims} (hd : Dims.WF d) : Dims.zero.add d = d :=
+  Dims.ext_getD (Dims.add_wf Dims.zero_wf hd) hd fun j _ => by
+    rw [Dims.getD_add (by rw [hd]; simp [Dims.zero]), Dims.getD_zero]; simp
+
+theorem Dims.add_zero {d : Dims} (hd : Dims.WF d) : d.add Dims.zero = d :=
+  Dims.ext_getD (Dims.add_wf hd Dims.zero_wf) hd fun j _ => by
+    rw [Dims.getD_add (by rw [hd]; simp [Dims.zero]), Dims.getD_zero]; simp
+
+theorem Dims.smul_zero (n : ℤ) : Dims.smul n Dims.zero = Dims.zero := by
+  simp [Dims.smul, Dims.zero]
+
+theorem PyVal.mul_si (a b : PyVal α) : (a.mul b).si = a.si * b.si := by
+  cases a <;> cases b <;>
+    simp [PyVal.mul, PyVal.si, PyVal.asQuantity, Quantity.si, Quantity.mul, Unit.mul, Unit.one] <;> ring
+
+theorem PyVal.mul_dims {a b : PyVal α} (ha : a.WF) (hb : b.WF) : (a.mul b).dims = a.dims.add b.dims := by
+  have h1 := PyVal.dims_wf ha
+  have h2 := PyVal.dims_wf hb
+  cases a <;> cases b <;>
+    simp_all [PyVal.mul, PyVal.dims, PyVal.asQuantity, Quantity.mul, Unit.mul, Unit.one, Dims.zero_add, Dims.add_zero,
+      Dims.zero_wf]
+
+theorem PyVal.mul_wf {a b : PyVal α} (ha : a.WF) (hb : b.WF) : (a.mul b).WF := by
+  cases a with
+  | num x => cases b <;> simp_all [PyVal.mul, PyVal.WF]
+  | qty p =>
+    cases b with
+    | num y => simpa [PyVal.mul, PyVal.WF] using ha
+    | qty q =>
+      exact ⟨by simpa [Quantity.mul, Unit.mul] using ⟨ha.factor_ne, hb.factor_ne⟩,
+        by simpa [Quantity.mul, Unit.mul] using Dims.add_wf ha.dims hb.dims⟩
+
+theorem PyVal.pow_si (v : PyVal α) (n : ℤ) : (v.pow n).si = v.si ^ n := by
+  cases v <;> simp [PyVal.pow, PyVal.si, PyVal.asQuantity, Quantity.si, Quantity.pow, Unit.pow, Unit.one, zpow_eq, mul_zpow]
+
+theorem PyVal.pow_dims (v : PyVal α) (n : ℤ) : (v.pow n).dims = Dims.smul n v.dims := by
+  cases v <;> simp [PyVal.pow, PyVal.dims, PyVal.asQuantity, Quantity.pow, Unit.pow, Unit.one, Dims.smul_zero]
+
+theorem PyVal.pow_wf {v : PyVal α} (hv : v.WF) (n : ℤ) : (v.pow n).WF := by
+  cases v with
+  | num x => simp [PyVal.pow, PyVal.WF]
+  | qty q =>
+    exact ⟨by simpa [Quantity.pow, Unit.pow, zpow_eq] using zpow_ne_zero n hv.factor_ne,
+      by simpa [Quantity.pow, Unit.pow] using Dims.smul_wf n hv.dims⟩
+
+/-! ### registries -/
+
+/-- a base-unit registry: one entry per key, each a non-zero (positive in practice) multiple of a unit of the
+    dimension its key names -/
+structure RegistryWF (reg : Registry α) : Prop where
+  len : reg.length = nDims
+  entry : ∀ i (h : i < reg.length), reg[i].WF ∧ reg[i].dims = Dims.basis i ∧ reg[i].si ≠ 0
+
+/-- `∏ registry[key_j].si ^ d_j`: the SI value of the registry's unit for the exponent vector `d` -/
+def regProd : List (PyVal α) → Dims → α
+  | r :: rs, e :: es => r.si ^ e * regProd rs es
+  | _, _ => 1
+
+/-- sum over a list of values of exponent `j` -/
+def dimSum (us : List (PyVal α)) (j : ℕ) : ℤ := (us.map fun u => u.dims.getD j 0).sum
+
+theorem foldl_mul_spec (us : List (PyVal α)) (t : PyVal α) (ht : t.WF) (hus : ∀ u ∈ us, u.WF) :
+    (us.foldl PyVal.mul t).WF ∧ (us.foldl PyVal.mul t).si = t.si * (us.map PyVal.si).prod ∧
+    ∀ j, (us.foldl PyVal.mul t).dims.getD j 0 = t.dims.getD j 0 + dimSum us j := by
+  induction us generalizing t with
+  | nil => simp [ht, dimSum]
+  | cons u r ih =>
+    have hu : u.WF := hus u (by simp)
+    have hr : ∀ w ∈ r, w.WF := fun w hw => hus w (by simp [hw])
+    obtain ⟨h1, h2, h3⟩ := ih (t.mul u) (PyVal.mul_wf ht hu) hr
+    refine ⟨h1, ?_, ?_⟩
+    · simp [List.foldl_cons, h2, PyVal.mul_si, mul_assoc]
+    · intro j
+      simp only [List.foldl_cons, h3 j, PyVal.mul_dims ht hu]
+      rw [Dims.getD_add (by rw [PyVal.dims_wf ht, PyVal.dims_wf hu])]
+      simp [dimSum]; ring
+
+theorem registryPowers_dimItems (reg : Registry α) (hreg : RegistryWF reg) (d : Dims) (i : ℕ)
+    (hlen : i + d.length = nDims) :
+    ∃ us, registryPowers reg (dimItems i d) = .ok us ∧ (∀ u ∈ us, u.WF ∧ u.si ≠ 0) ∧
+      (us.map PyVal.si).prod = regProd (reg.drop i) d ∧
+      (us = [] ↔ dimItems i d = []) ∧
+      ∀ j, j < nDims → dimSum us j = if i ≤ j then d.getD (j - i) 0 else 0 := by
+  induction d generalizing i with
+  | nil =>
+    refine ⟨[], by simp [dimItems, registryPowers], by simp, ?_, by simp [dimItems], ?_⟩
+    · cases reg.drop i <;> simp [regProd]
+    · intro j _; simp [dimSum]
+  | cons e r ih =>
+    have hi : i < reg.length := by rw [hreg.len]; simp at hlen; omega
+    obtain ⟨us, h1, h2, h3, h3', h4⟩ := ih (i + 1) (by simp at hlen; omega)
+    have hdrop : reg.drop i = reg[i] :: reg.drop (i + 1) := List.drop_eq_getElem_cons hi
+    obtain ⟨hw, hdim, hsi⟩ := hreg.entry i hi
+    by_cases he : e = 0
+    · subst he
+      refine ⟨us, by simpa [dimItems] using h1, h2, ?_, by simpa [dimItems] using h3', ?_⟩
+      · rw [hdrop]; simp [regProd, h3]
+      · intro j hj
+        rw [h4 j hj]
+        by_cases hij : i + 1 ≤ j
+        · have : i ≤ j := by omega
+          have hji : j - i = (j - (i + 1)) + 1 := by omega
+          simp [hij, this, hji]
+        · by_cases hij' : i ≤ j
+          · have : j - i = 0 := by omega
+            simp [hij, hij', this]
+          · simp [hij, hij']
+    · refine ⟨reg[i].pow e :: us, ?_, ?_, ?_, by simp [dimItems, he], ?_⟩
+      · simp [dimItems, he, registryPowers, List.getElem?_eq_getElem hi, h1]
+      · intro u hu
+        rcases List.mem_cons.mp hu with rfl | hu
+        · exact ⟨PyVal.pow_wf hw e, by rw [PyVal.pow_si]; exact zpow_ne_zero e hsi⟩
+        · exact h2 u hu
+      · rw [hdrop]; simp [regProd, h3, PyVal.pow_si]
+      · intro j hj
+        simp only [dimSum, List.map_cons, List.sum_cons] at h4 ⊢
+        rw [h4 j hj, PyVal.pow_dims, Dims.getD_smul, hdim, Dims.getD_basis]
+        by_cases hij : i + 1 ≤ j
+        · have h5 : i ≤ j := by omega
+          have h6 : j ≠ i := by omega
+          have hji : j - i = (j - (i + 1)) + 1 := by omega
+          simp [hij, h5, h6, hji]
+        · by_cases hij' : i ≤ j
+          · have h6 : j = i := by omega
+            subst h6
+            simp [hj]
+          · have h6 : j ≠ i := by omega
+            simp [hij, hij', h6]
+
+theorem list_prod_ne_zero {l : List α} (h : ∀ x ∈ l, x ≠ 0) : l.prod ≠ 0 := by
+  induction l with
+  | nil => simp
+  | cons a r ih =>
+    simp only [List.prod_cons]
+    exact mul_ne_zero (h a (by simp)) (ih fun x hx => h x (by simp [hx]))
+
+/-- `_get_unit_from_registry` on the non-zero exponents of `d`: a well-formed unit of exponent vector `d` whose SI
+    value is the product of the registry's base units raised to the exponents -/
+theorem getUnitFromRegistry_spec (reg : Registry α) (hreg : RegistryWF reg) (d : Dims) (hd : Dims.WF d)
+    (hne : dimItems 0 d ≠ []) :
+    ∃ U, getUnitFromRegistry (dimItems 0 d) reg = .ok U ∧ U.WF ∧ U.dims = d ∧ U.si = regProd reg d ∧ U.si ≠ 0 := by
+  obtain ⟨us, h1, h2, h3, h3', h4⟩ := registryPowers_dimItems reg hreg d 0 (by simpa [Dims.WF] using hd)
+  cases us with
+  | nil => exact absurd (h3'.mp rfl) hne
+  | cons t r =>
+    have ht := h2 t (by simp)
+    have hr : ∀ u ∈ r, u.WF := fun u hu => (h2 u (by simp [hu])).1
+    obtain ⟨f1, f2, f3⟩ := foldl_mul_spec r t ht.1 hr
+    have hsi : (r.foldl PyVal.mul t).si = regProd reg d := by
+      rw [f2]; simpa using h3
+    refine ⟨r.foldl PyVal.mul t, by simp [getUnitFromRegistry, h1], f1, ?_, hsi, ?_⟩
+    · apply Dims.ext_getD (PyVal.dims_wf f1) hd
+      intro j hj
+      have := h4 j hj
+      simp only [dimSum, List.map_cons, List.sum_cons] at this
+      rw [f3 j]; simpa [dimSum] using this
+    · rw [f2]
+      refine mul_ne_zero ht.2 (list_prod_ne_zero ?_)
+      intro x hx
+      obtain ⟨u, hu, rfl⟩ := List.mem_map.mp hx
+      exact (h2 u (by simp [hu])).2
+
+theorem dimItems_eq_nil_iff (d : Dims) (i : ℕ) : dimItems i d = [] ↔ ∀ e ∈ d, e = 0 := by
+  induction d generalizing i with
+  | nil => simp [dimItems]
+  | cons e r ih =>
+    by_cases he : e = 0
+    · simp [dimItems, he, ih]
+    · simp [dimItems, he]
+
+theorem Dims.eq_zero_iff {d : Dims} (hd : Dims.WF d) : d = Dims.zero ↔ ∀ e ∈ d, e = 0 := by
+  constructor
+  · rintro rfl e he; simpa [Dims.zero] using (List.mem_replicate.mp he).2
+  · intro h
+    unfold Dims.WF at hd
+    rw [Dims.zero, ← hd]
+    exact List.eq_replicate_iff.mpr ⟨rfl, h⟩
+
+theorem regProd_replicate_zero (reg : List (PyVal α)) (n : ℕ) : regProd reg (List.replicate n 0) = 1 := by
+  induction reg generalizing n with
+  | nil => cases n <;> simp [regProd, List.replicate_succ]
+  | cons r rs ih => cases n <;> simp [regProd, List.replicate_succ, ih]
+
+theorem regProd_zero (reg : List (PyVal α)) : regProd reg Dims.zero = 1 := regProd_replicate_zero reg nDims
+
+/-- one expression of the `derived` dict: a well-formed unit with the tabulated exponents -/
+theorem monomial_spec (reg : Registry α) (hreg : RegistryWF reg) (e : Dims) (he : Dims.WF e) :
+    ∃ U, monomial reg e = .ok U ∧ U.WF ∧ U.dims = e ∧ U.si = regProd reg e ∧ U.si ≠ 0 := by
+  obtain ⟨us, h1, h2, h3, _, h4⟩ := registryPowers_dimItems reg hreg e 0 (by simpa [Dims.WF] using he)
+  have hone : (PyVal.one : PyVal α).WF := by simp [PyVal.one, PyVal.WF]
+  obtain ⟨f1, f2, f3⟩ := foldl_mul_spec us PyVal.one hone (fun u hu => (h2 u hu).1)
+  have hsi : (us.foldl PyVal.mul PyVal.one).si = regProd reg e := by
+    rw [f2]; simp [PyVal.one, h3]
+  refine ⟨us.foldl PyVal.mul PyVal.one, by simp [monomial, h1], f1, ?_, hsi, ?_⟩
+  · apply Dims.ext_getD (PyVal.dims_wf f1) he
+    intro j hj
+    rw [f3 j, h4 j hj]
+    have := Dims.getD_zero j
+    rw [List.getD_eq_getElem?_getD] at this
+    simp [PyVal.one, this]
+  · rw [f2]
+    refine mul_ne_zero (by simp [PyVal.one]) (list_prod_ne_zero ?_)
+    intro x hx
+    obtain ⟨u, hu, rfl⟩ := List.mem_map.mp hx
+    exact (h2 u hu).2
+
+theorem derivedAll_spec (reg : Registry α) (hreg : RegistryWF reg) (tab : List (String × Dims))
+    (htab : ∀ p ∈ tab, Dims.WF p.2) :
+    ∃ ds, derivedAll reg tab = .ok ds ∧
+      ∀ key, (ds.lookup key).isSome = (tab.lookup key).isSome ∧
+        ∀ U, ds.lookup key = some U → ∃ e, tab.lookup key = some e ∧ U.WF ∧ U.dims = e ∧ U.si = regProd reg e ∧ U.si ≠ 0 := by
+  induction tab with
+  | nil => exact ⟨[], by simp [derivedAll], by simp⟩
+  | cons p r ih =>
+    obtain ⟨k, e⟩ := p
+    obtain ⟨ds, hds, hspec⟩ := ih (fun q hq => htab q (by simp [hq]))
+    obtain ⟨U, hU, hw, hd, hs, hn⟩ := monomial_spec reg hreg e (htab (k, e) (by simp))
+    refine ⟨(k, U) :: ds, by simp [derivedAll, hU, hds], ?_⟩
+    intro key
+    by_cases hk : key = k
+    · subst hk
+      simp only [List.lookup, beq_self_eq_true, Option.isSome_some, Option.some.injEq, true_and]
+      rintro U' rfl
+      exact ⟨e, rfl, hw, hd, hs, hn⟩
+    · have hk' : (key == k) = false := by simpa using hk
+      simp only [List.lookup, hk']
+      exact hspec key
 
 end ChemModel.Units
